@@ -19,8 +19,13 @@ META = {
             "(restart), hard state/snapshot/identity read back as written, the inverse map points to the most recent write of a "
             "block; an add is refused when name, id, address or peer id duplicates an applied member, a removed id is never "
             "re-added, an unknown id is not removed, and an accepted removal of a healthy node leaves healthy-1 >= (N-1)/2+1. "
+            "Also: replayWAL hands exactly that log and hard state to the consensus library's storage; every prefix of the write units "
+            "of SaveEntry leaves a consistent store (crash points; the opposite order is refuted); entriesToApply, the snapshot / "
+            "compaction index arithmetic of triggerSnapshot, HasWal, Cluster.Recover (removed ids survive a restart) and the single "
+            "proposal slot.  "
             "Tied to /repo on every run by vm_compute evaluation of the model on the histories and membership cases the real code "
-            "was run on (restart after every operation; all progress/health vectors up to 5 nodes).",
+            "was run on (restart after every operation and after every proper prefix of its journaled DB write units; all "
+            "progress/health vectors up to 5 nodes; request sequences with restarts through snapshot data).",
     "note": "Trusted: Coq kernel/vm_compute; engine harness/engines/raftwal (in-package test of raftv2 + constructor shim in chain, "
             "overlay build); gob/protobuf encodings are opaque (round trip observed, not proved); dbkey families disjoint; the "
             "aergo-lib in-memory store stands for the DB (transaction atomicity below db.DB not modelled); fake raft Status for "
@@ -54,6 +59,7 @@ class WalGen:
         self.contract = not wild  # what the consensus library guarantees: batches above the stored commit, commit inside the log,
         #                           snapshot term = term of the entry at the snapshot index
         self.commit = 0
+        self.base = 0           # ResetWAL's commit index: entries at or below it are compacted away
 
     def batch(self):
         rng = self.rng
@@ -124,8 +130,15 @@ class WalGen:
             self.hs = hs
             self.commit = hs[2]
         elif c == "snap":
-            si = rng.randrange(0, self.last + 1)
-            st = (self.spec[si][1] if si in self.spec else 0) if self.contract else rng.randrange(0, self.term + 1)
+            if self.contract:
+                # a snapshot is taken of applied (committed) entries, never below an earlier snapshot or the reset point
+                lo = max(self.snap[0] if self.snap else 0, self.base)
+                if lo > min(self.commit, self.last):
+                    return
+                si = rng.randrange(lo, min(self.commit, self.last) + 1)
+                st = self.spec[si][1] if si in self.spec else (self.snap[1] if self.snap and self.snap[0] == si else 0)
+            else:
+                si, st = rng.randrange(0, self.last + 1), rng.randrange(0, self.term + 1)
             s = (si, st, rng.randrange(1, 9))
             self.ops.append(["snap"] + list(s))
             self.snap = s
@@ -135,11 +148,11 @@ class WalGen:
             self.ident = i
         elif c == "clear":
             self.ops.append(["clear"])
-            self.spec, self.last, self.hs, self.snap, self.ident, self.commit = {}, 0, None, None, None, 0
+            self.spec, self.last, self.hs, self.snap, self.ident, self.commit, self.base = {}, 0, None, None, None, 0, 0
         elif c == "reset":
             t, cm = self.term, rng.randrange(0, min(self.last, 6) + 1)
             self.ops.append(["reset", t, cm])
-            self.spec, self.last, self.hs, self.snap, self.ident, self.commit = {}, cm, (t, 0, cm), (cm, t, 0), None, cm
+            self.spec, self.last, self.hs, self.snap, self.ident, self.commit, self.base = {}, cm, (t, 0, cm), (cm, t, 0), None, cm, cm
 
 
 def coq_items(items):
